@@ -33,7 +33,7 @@ _p(
     level="proof",
     trusted_base=SMT + ["pyvc/torchmodel.py: assumed contracts of torch ops", "contracts/summaries.py: callee contracts, each verified against its body in the same run"],
     assumptions=[A1, A2, A7, "precondition: all floating tensor arguments of one call share a dtype; mult > 0; 0 <= p < 1; dims >= 1; documented constraint names; normalized_shape rank enumerated 1..3; conv1d input 2-D or 3-D"],
-    components=[comp.validators(["algebra", "shapes"])],
+    components=[comp.validators(["algebra", "shapes"]), comp.script("engine-cross-check", "engine validation", ["{ROOT}/checker/crosscheck.py"], python="python3-vt")],
     explanation="For each of the 16 public ops and each discrete configuration (constraint name, bias/weight presence, reduction, rank of logits / normalized_shape) the real function body is executed symbolically for ALL shapes (symbolic rank and dims), ALL hyper-parameter values and ALL tensor values; the postcondition result == k*reference with k>0, k data-independent (k==1 for losses/norms/embedding), equal shape and dtype, and the frame condition are discharged per path by z3.",
     uncovered=["dtype clause is proved at the level of torch's promotion rules (A2), not of rounding", "argument guard: see C01:docs._validate obligations (call shapes enumerated exhaustively)"],
 )
@@ -42,7 +42,7 @@ _p(
     level="proof",
     trusted_base=SMT + ["pyvc/tensor.py symbolic reverse mode; VJPs of torch ops uninterpreted and linear in g (A2)"],
     assumptions=[A1, A2, A7],
-    components=[comp.validators(["algebra"])],
+    components=[comp.validators(["algebra"]), comp.script("engine-cross-check", "engine validation", ["{ROOT}/checker/crosscheck.py"], python="python3-vt")],
     explanation="Symbolic reverse-mode over the same symbolic run as C01: for every differentiable input grad == b*reference gradient with b>0 and b free of tensor values and of the upstream gradient; _ScaledGrad.forward/backward are executed from source and scale_fwd/scale_bwd proved equal to their contracts for every real factor (zero and negative included).",
 )
 _p(
@@ -50,7 +50,7 @@ _p(
     level="proof",
     trusted_base=SMT + ["term-count spec functions of the reference torch ops (trusted/validate_torch.py measures them on all-ones tensors)"],
     assumptions=[A1, A2, A7, "term counts are facts about torch ops (assumed contracts), validated by measurement on randomised shapes every run"],
-    components=[comp.validators(["terms", "shapes"])],
+    components=[comp.validators(["terms", "shapes"]), comp.script("engine-cross-check", "engine validation", ["{ROOT}/checker/crosscheck.py"], python="python3-vt")],
     explanation="With constraint None and default scale powers: scale^2 * terms == 1 for the output and every gradient of linear, matmul, conv1d, add, embedding, dropout, mse_loss, layer_norm/rms_norm gains; nonlinear real arithmetic over symbolic shapes.",
 )
 _p(
@@ -98,7 +98,7 @@ _p(
     technique="contract-based deductive verification, bit-precise: FPFormat.quantise executed from the real AST into SMT FP/BV terms; obligations discharged by z3 for all 2^32 float32 inputs per format",
     trusted_base=["pyvc (self-written AST->SMT VC generator over the real source)"] + BITP + ["bitmodel.repr_pred: value-set specification on float32 patterns (cross-checked against an exact Fraction enumeration by trusted/validate_formats.py)"],
     assumptions=[A7, "torch primitive semantics as listed in pyvc/bitmodel.py (assumed; validated at run time, bounded)", "inputs: every non-NaN float32 bit pattern (|x| < 2^126 when E = 8); formats enumerated: quick 6 formats, thorough all 168 (E 2..8, M 0..23)", "float64 / bfloat16 / float16 inputs: proved equal to the float32 path composed with the conversions (element model), for rank 1 and rank 2 shapes with symbolic dims; 'idempotent' is the consequence of 'representable' and 'representable input unchanged' (both for all inputs)"],
-    components=[comp.validators(["bits"])],
+    components=[comp.validators(["bits"]), comp.script("engine-cross-check-bits", "engine validation", ["{ROOT}/checker/crosscheck_bits.py"], python="python3-vt")],
     explanation="For each format the result element of the real quantise body is an SMT term over the input's float32 pattern; representable, sign, saturation, neighbour (no representable value strictly between), nearest (exact 280-bit scaled-integer distances; slack only below 2^emin), fix-point, odd symmetry, monotonicity (two variables), dtype/shape/frame and the three range properties are discharged by z3 for ALL inputs.",
 )
 
@@ -108,7 +108,7 @@ _p(
     technique="contract-based deductive verification, bit-precise: the random draw is a universally quantified bit-vector; probabilities are COUNTED from a proved threshold form",
     trusted_base=["pyvc (self-written AST->SMT VC generator over the real source)"] + BITP,
     assumptions=[A7, "torch.randint(0, 2^s, shape) yields per-element independent uniform integers (assumed); the check proves it is called once with size == x.shape and range [0, 2^s)", "inputs: every finite float32 bit pattern and every draw R in [0, 2^srbits); formats E 2..7, M 0..10, srbits 1..12 and default: quick 10 triples, thorough all 858"],
-    components=[comp.validators(["bits"])],
+    components=[comp.validators(["bits"]), comp.script("engine-cross-check-bits", "engine validation", ["{ROOT}/checker/crosscheck_bits.py"], python="python3-vt")],
     explanation="For all x and all R: the result is representable, one of the two neighbours of the clamped input, never moves a representable input; it rounds away from zero exactly when R >= 2^s - rnd(d/2^(D-s)) where d/2^D is the fractional position between the neighbours (pattern-space lemmas about the value set, normal range; RNE-scaled position with error <= 2^-(D+1) below 2^emin); counting lemmas (LIA) turn the threshold into P(away) = rnd(d/2^(D-s))/2^s, exact when s = D and within 2^-(s+1) otherwise.",
 )
 
